@@ -693,7 +693,8 @@ def choose {α : Type} : Nat → List α → List (List α)
   | _ + 1, [] => []
   | k + 1, x :: xs => (choose k xs).map (x :: ·) ++ choose (k + 1) xs
 
-/-- The greedy assignment inside the callback: for each lambda in order take the first remaining member that matches. -/
+/-- Snapshot ef0888e (kept for the counterexample theorem): the greedy walk inside the callback — for each lambda in order
+take the first remaining member that matches, never take a choice back. -/
 def assign {α : Type} (m : Nat → α → Bool) : Nat → Nat → List α → Option (List α)
   | 0, _, _ => some []
   | l + 1, s, rest =>
@@ -708,6 +709,24 @@ def nth? {α : Type} : List α → Nat → Option α
   | [], _ => none
   | x :: _, 0 => some x
   | _ :: r, n + 1 => nth? r n
+
+def firstSome {β : Type} (f : Nat → Option β) : List Nat → Option β
+  | [] => none
+  | i :: is =>
+    match f i with
+    | some r => some r
+    | none => firstSome f is
+
+/-- `combineBuffer.assign` (as repaired): for lambda s try the remaining members in order; a member that matches is taken
+and the remaining lambdas are served from the others; when that fails the choice is taken back and the next member is
+tried. (The code marks a used member in `indices`; here it is removed — the order of the others is the same.) -/
+def assignBT {α : Type} (m : Nat → α → Bool) : Nat → Nat → List α → Option (List α)
+  | 0, _, _ => some []
+  | l + 1, s, rest =>
+    firstSome (fun i =>
+      match nth? rest i with
+      | some x => if m s x then (assignBT m l (s + 1) (rest.eraseIdx i)).map (x :: ·) else none
+      | none => none) (List.range rest.length)
 
 /-- `combineBuffer.merge`. -/
 def mergeSet (c : CombineCfg) (dims : List String) (set : List BPoint) : Fields × Tags :=
@@ -730,7 +749,7 @@ def combineBucket (c : CombineCfg) (name : String) (dims : List String) (byName 
     | some e => evalPred e p.fields p.tags == some true
     | none => false
   some ((choose l pts).filterMap (fun set =>
-    match assign m l 0 set with
+    match assignBT m l 0 set with
     | none => none
     | some sel =>
       let ft := mergeSet c dims sel
